@@ -11,6 +11,16 @@ impl<A: SvArray> SmallVec<A> {
     #[verifier::external_body]
     pub fn from_one(x: A::Item) -> (r: Self) ensures r@ == seq![x] { SmallVec { v: vec![x] } }
     #[verifier::external_body]
+    pub fn new_empty() -> (r: Self) ensures r@ == Seq::<A::Item>::empty() { SmallVec { v: Vec::new() } }
+    #[verifier::external_body]
+    pub fn clear(&mut self) ensures final(self)@ == Seq::<A::Item>::empty() { self.v.clear() }
+    #[verifier::external_body]
+    pub fn truncate(&mut self, n: usize) ensures final(self)@ == (if n <= old(self)@.len() { old(self)@.take(n as int) } else { old(self)@ }) { self.v.truncate(n) }
+    #[verifier::external_body]
+    pub fn swap_remove(&mut self, i: usize) -> (r: A::Item) requires i < old(self)@.len() ensures r == old(self)@[i as int], final(self)@ == old(self)@.update(i as int, old(self)@.last()).drop_last() { self.v.swap_remove(i) }
+    #[verifier::external_body]
+    pub fn pop(&mut self) -> (r: Option<A::Item>) ensures match r { Some(x) => old(self)@.len() > 0 && x == old(self)@.last() && final(self)@ == old(self)@.drop_last(), None => old(self)@.len() == 0 && final(self)@ == old(self)@ } { self.v.pop() }
+    #[verifier::external_body]
     pub fn len(&self) -> (r: usize) ensures r == self@.len() { self.v.len() }
     #[verifier::external_body]
     pub fn is_empty(&self) -> (r: bool) ensures r == (self@.len() == 0) { self.v.is_empty() }
